@@ -15,7 +15,7 @@
    They hold for every curve-point oracle `pt_ok`.  The derived PartiallySignedTransaction serde is generated code and is not covered. *)
 From Coq Require Import List NArith Bool.
 From Coq.Strings Require Import Byte.
-From EV Require Import Base.Bytes Base.Codec Gen.Tables Model.Tx Model.Block Model.Text Model.Serde Proofs.Text Proofs.Serde.
+From EV Require Import Base.Bytes Base.Codec Gen.Tables Model.Tx Model.Block Model.Text Model.Serde Proofs.Text Proofs.Serde Proofs.SerdeBridge.
 Import ListNotations.
 Open Scope N_scope.
 
@@ -151,6 +151,23 @@ Proof. intros A print parse a H. split; [exact (rt_string true print parse a H)|
 Theorem C20_serde_PsbtSighashType : forall v, v < 4294967296 ->
   RT (fun _ : bool => ser_string print_psbt_sighash) (fun _ : bool => de_string parse_psbt_sighash) v.
 Proof. intros v H. apply C20_serde_string_forms. now apply parse_print_psbt. Qed.
+(* the same under the consensus codecs' canonicity predicate `wf` (the hypothesis of C01): wf implies swf (Proofs/SerdeBridge.v) *)
+Variables maxvec cap_txin cap_txout cap_vecu8 cap_tx : N.
+Theorem C20_wf_implies_swf :
+  (forall t, wf (c_tx pt_ok maxvec cap_txin cap_txout cap_vecu8) t = true -> swf_tx pt_ok t = true) /\
+  (forall i, wf (c_txin pt_ok maxvec) i = true -> swf_txin pt_ok i = true) /\ (forall o, wf (c_txout pt_ok maxvec) o = true -> swf_txout pt_ok o = true) /\
+  (forall h, wf (c_header maxvec cap_vecu8) h = true -> swf_header h = true) /\
+  (forall b, wf (c_block pt_ok maxvec cap_txin cap_txout cap_vecu8 cap_tx) b = true -> swf_block pt_ok b = true) /\
+  (forall p, wf (c_params maxvec cap_vecu8) p = true -> swf_params p = true) /\
+  (forall v, wf (c_value pt_ok) v = true -> swf_value pt_ok v = true) /\ (forall v, wf (c_asset pt_ok) v = true -> swf_asset pt_ok v = true) /\
+  (forall v, wf (c_nonce pt_ok) v = true -> swf_nonce pt_ok v = true).
+Proof. repeat split; intros x H; [eapply br_tx|eapply br_txin|eapply br_txout|eapply (br_header pt_ok)|eapply br_block|eapply br_params|eapply br_value|eapply br_asset|eapply br_nonce]; exact H. Qed.
+Theorem C20_serde_canonical_Transaction : forall t, wf (c_tx pt_ok maxvec cap_txin cap_txout cap_vecu8) t = true -> RT ser_tx (de_tx pt_ok) t.
+Proof. intros t H. apply C20_serde_Transaction. eapply br_tx; exact H. Qed.
+Theorem C20_serde_canonical_BlockHeader : forall h, wf (c_header maxvec cap_vecu8) h = true -> RT ser_header de_header h.
+Proof. intros h H. apply C20_serde_BlockHeader. eapply (br_header pt_ok); exact H. Qed.
+Theorem C20_serde_canonical_Block : forall b, wf (c_block pt_ok maxvec cap_txin cap_txout cap_vecu8 cap_tx) b = true -> RT ser_block (de_block pt_ok) b.
+Proof. intros b H. apply C20_serde_Block. eapply br_block; exact H. Qed.
 End C20_SERDE.
 
 (* what the views are, on a small transaction output; and that the byte swap is really there *)
@@ -206,3 +223,5 @@ Check (C20_serde_Params : forall p, swf_params p = true ->
   de_params true (json_view (ser_params true p)) = Ok p /\ de_params false (cbor_view (ser_params false p)) = Ok p).
 Check (C20_serde_TxOutSecrets : forall s, swf_secrets s = true ->
   de_secrets true (json_view (ser_secrets true s)) = Ok s /\ de_secrets false (cbor_view (ser_secrets false s)) = Ok s).
+Check (C20_serde_canonical_Transaction : forall pt_ok maxvec cap_txin cap_txout cap_vecu8 t, wf (c_tx pt_ok maxvec cap_txin cap_txout cap_vecu8) t = true ->
+  de_tx pt_ok true (json_view (ser_tx true t)) = Ok t /\ de_tx pt_ok false (cbor_view (ser_tx false t)) = Ok t).
